@@ -20,21 +20,21 @@ CHECKS = {
  "C07": dict(section="4.7", technique="exhaustive bounded enumeration of structured inputs (explicit-state tree search); one-step fixed-point oracle on the real encoder/decoder",
    text="Every input of the structured spaces of C08/C09/C10/C12/C14/C15/C18 plus dedicated non-canonical families (all encodings within 2 deviations incl. bignum and indefinite forms) is decoded; for each accepted one: re-encode, re-decode, compare value (incl. retained protected bytes) and second encoding, tagged forms too."),
  "C08": dict(section="4.8", technique="exhaustive enumeration of bounded header maps (explicit-state tree search) with differential check against an independent reference decoder",
-   text="Every header map with <= 3 (quick) / 4 (thorough) entries over a ~130-pair alphabet (each rule satisfied and violated alone), in every order, at up to 29 carrier positions, plus all encodings within 1-2 deviations of small maps, is decoded by the real crate and compared (accept/reject and every field) with an independent reference."),
+   text="Every header map with <= 3 (quick) / 4 (thorough) entries over a ~150-pair alphabet (each rule satisfied and violated alone), in every order, at up to 33 carrier positions, wide maps of 17..300 entries, all byte strings of <= 2/3 bytes, plus all encodings within 1-2 deviations of small maps, is decoded by the real crate and compared (accept/reject and every field) with an independent reference."),
  "C09": dict(section="4.9", technique="exhaustive enumeration of arrays over a slot alphabet (explicit-state product search), each decoded as all eight structure types, compared with an independent reference",
-   text="All arrays of arity 3,4,5 over a 29-value slot alphabet (reduced alphabets for the largest products in quick) and arity 0,1,2,6,7 over a reduced one, every non-array kind, decoded as each of the 8 structure types untagged and tagged; accept/reject and every field compared with the reference CDDL rules; encodings within 1-2 deviations."),
+   text="All arrays of arity 3,4,5 over a 39-value slot alphabet (13 values for arity 5 in quick), lists of 17/40 nested elements with the fault first / middle / last, all byte strings of <= 2/3 bytes, and arity 0,1,2,6,7 over a reduced one, every non-array kind, decoded as each of the 8 structure types untagged and tagged; accept/reject and every field compared with the reference CDDL rules; encodings within 1-2 deviations."),
  "C10": dict(section="4.10", technique="exhaustive enumeration of bounded key maps and key sets (explicit-state tree search) against an independent reference decoder",
    text="Every COSE_Key map with <= 3/4 entries over a ~70-pair alphabet in every order (kty at every position, absent, reserved, duplicated), as a key and inside a key set; all key sets of 0..3 valid/invalid elements; encodings within 1-2 deviations."),
  "C11": dict(section="4.11", technique="exhaustive enumeration of per-field palette products of in-memory values for every type; real encoder output read by an independent CBOR parser and compared with a reference encoder",
    text="~18k values (full products of per-field palettes for headers, keys, claims; all 8 message types over protected/unprotected/payload/nested-list palettes; labels and every registered value of every registry label type): to_vec succeeds, output is definite-length with shortest heads, independently parsed output equals the reference encoding (maps modulo order, extras in order, protected slots parsed), decoding the output returns the value, tagged forms too."),
  "C12": dict(section="4.12", technique="exhaustive enumeration of duplicate-label placements x label encodings x carriers (decode) and of colliding in-memory values (encode)",
-   text="Decode: every label of a boundary-crossing set x every pair of encodings x every pair of positions in maps of size 2..4 x every carrier (29 header positions, key, key set, claims) must be rejected, with the duplicate-key error when it is the only fault. Encode: see C11-style enumeration of colliding in-memory values."),
+   text="Decode: every label of a boundary-crossing set x every pair of encodings x every pair of positions in maps of size 2..4 x every carrier (33 header positions, key, key set, claims), every pair of values incl. the field defaults, and maps of 9..65 entries with the repeat at every pair of positions: must be rejected, with the duplicate-key error when it is the only fault. Encode: every in-memory header / key / claims set (alone and embedded in 14 carriers) whose extras repeat a label or name a populated typed field in any of its shape variants must fail to encode or emit pairwise distinct keys."),
  "C13": dict(section="4.13", technique="exhaustive prefix/suffix enumeration over every accepted input of the structured spaces; layer-agreement differential on every input",
    text="For every accepted input of the (reduced-bound) structured spaces: all proper prefixes rejected, 265 suffixes rejected with the extraneous-data error; for every input byte API == Value API in both directions, tagged forms included."),
  "C14": dict(section="4.14", technique="exhaustive product 6 types x 16 tags x head widths x bodies x tagging depth through both entry points",
    text="Exact iff of the statement for every combination, plus bytewise to_tagged_vec == tag head || to_vec and tagged round trip."),
  "C15": dict(section="4.15", technique="exhaustive enumeration of an integer boundary lattice and window x interpreting positions x head widths against exact-arithmetic reference",
-   text="~1.3k lattice integers in [-2^64, 2^64-1] plus a window (+-300 quick / +-70000 thorough) at 34 positions under every head width: exact value or out-of-range error; extras preserved; re-encoding reads back as the same integer with a minimal head."),
+   text="~1.3k lattice integers in [-2^64, 2^64-1] plus a window (+-3000 quick / +-70000 thorough) at 42 positions and the 33 header carrier positions under every head width: exact value or out-of-range error; extras preserved; re-encoding reads back as the same integer with a minimal head."),
  "C16": dict(section="4.16", technique="exhaustive enumeration of all pairs and triples over a boundary-crossing label set for Label and all 12 registry label instantiations",
    text="Order laws (Eq-consistency, antisymmetry, partial_cmp, transitivity on all triples) and agreement of cmp / cmp_canonical with bytewise / length-first comparison of independently produced deterministic encodings."),
  "C17": dict(section="4.17", technique="exhaustive enumeration of [-70000,70000] + 64-bit extremes over all 16 registry enums and all label-typed decode positions against a registry snapshot",
